@@ -76,7 +76,10 @@ def run_tlc(module, cfg_text, workers=16, timeout=600, simulate=None, dump=None,
         cfg = os.path.join(work, mod + ".cfg")
         with open(cfg, "w") as fh:
             fh.write(cfg_text)
-        cmd = ["java", "-XX:+UseSerialGC", "-Xmx" + heap, "-Xss64m"]
+        # TLC leaves one tlc-<n> directory per run under java.io.tmpdir: keep it inside the work directory, which is removed
+        jtmp = os.path.join(work, "jtmp")
+        os.makedirs(jtmp, exist_ok=True)
+        cmd = ["java", "-XX:+UseSerialGC", "-Xmx" + heap, "-Xss64m", "-Djava.io.tmpdir=" + jtmp]
         if deque:
             cmd.append("-Dtlc2.tool.queue.IStateQueue=StateDeque")
         cmd += ["-cp", JAR + ":" + DEPS, "tlc2.TLC", "-workers", str(workers),
